@@ -27,6 +27,9 @@ Definition n_registered (s : state) : N := nlen (filter c_active (s_conns s)).
 Definition n_registered_of (s : state) (u : N) : N :=
   nlen (filter (fun x => c_active x && (uid_of s (c_id x) =? u)) (s_conns s)).
 Definition n_unregistered (s : state) : N := nlen (filter (fun x => negb (c_active x)) (s_conns s)).
+(* connections whose authentication conversation has not ended: what the manual page says
+   max_incomplete_connections counts ("unauthenticated connections"), and what the property names *)
+Definition n_unauthenticated (s : state) : N := nlen (filter (fun d => negb (d_auth d)) (s_cdata s)).
 
 (* c is in the queue of the name: what ListQueuedOwners reports *)
 Definition in_queue (c : N) (kq : key * queue) : bool := existsb (fun o => o_conn o =? c) (snd kq).
@@ -39,6 +42,7 @@ Record within_limits (L : limits) (s : state) : Prop := mkWithin {
   wl_completed : n_registered s <= max_completed_connections L;
   wl_per_user : forall u, n_registered_of s u <= max_connections_per_user L;
   wl_incomplete : n_unregistered s <= max_incomplete_connections L;
+  wl_unauthenticated : n_unauthenticated s <= max_incomplete_connections L;
   wl_names : forall c, n_names s c <= max_names_per_connection L;
   wl_rules : forall c, n_rules s c <= max_match_rules_per_connection L;
   wl_replies : forall c, n_awaiting s c <= max_replies_per_connection L
@@ -65,6 +69,8 @@ Definition connected (s : state) (c : N) : bool :=
   match find_conn (s_conns s) c with Some _ => true | None => false end.
 Definition registered (s : state) (c : N) : bool :=
   match find_conn (s_conns s) c with Some x => c_active x | None => false end.
+Definition authenticated (s : state) (c : N) : bool :=
+  match find_cd (s_cdata s) c with Some d => d_auth d | None => false end.
 Definition outstanding (s : state) (c d serial : N) : bool :=
   existsb (fun p => (p_get p =? c) && (p_send p =? d) && (p_serial p =? serial)) (s_pending s).
 
@@ -72,10 +78,10 @@ Definition outstanding (s : state) (c d serial : N) : bool :=
 Definition demand (s : state) (e : levent) : option resource :=
   match e with
   | Connect _ => Some RIncompleteSlot
-  | Hello c => if connected s c && negb (registered s c) then Some (RConnectionSlot (uid_of s c)) else None
+  | Hello c => if connected s c && authenticated s c && negb (registered s c) then Some (RConnectionSlot (uid_of s c)) else None
   | RequestName c name _ => if registered s c && requestable name then Some (RNameSlot c) else None
   | AddMatch c _ => if registered s c then Some (RRuleSlot c) else None
-  | Call c d serial noreply =>
+  | Call c d serial noreply _ =>
       if registered s c && registered s d && negb noreply && negb (outstanding s c d serial) then Some (RReplySlot c) else None
   | _ => None
   end.
@@ -130,10 +136,24 @@ Definition limits_never_exceeded : Prop :=
    accepted) and changes nothing" *)
 Definition refusal_changes_nothing : Prop :=
   forall L s e, refusal (snd (lstep L s e)) = true -> fst (lstep L s e) = s.
+
+(* events on which the clauses about refusal are proved as they stand: everything except a method
+   call that carries a REPLY_SERIAL header field (a reply and a call at once) *)
+Definition plain (e : levent) : bool :=
+  match e with Call _ _ _ _ rserial => rserial =? 0 | _ => true end.
+
 Definition refused_exactly_when_exhausted : Prop :=
-  forall L, all_at_least_one L -> forall h e,
+  forall L, all_at_least_one L -> forall h e, plain e = true ->
     let s := fst (lrun L linit h) in
     refusal (snd (lstep L s e)) = should_refuse L s e.
+
+(* the literal reading of "the connection is not accepted" for the limit the property calls
+   "not-yet-authenticated connections": a connection attempt waits exactly when that many
+   connections have not finished authenticating *)
+Definition unauthenticated_limit_literal : Prop :=
+  forall L, all_at_least_one L -> forall h uid,
+    let s := fst (lrun L linit h) in
+    refusal (snd (lstep L s (Connect uid))) = (max_incomplete_connections L <=? n_unauthenticated s).
 
 (* "requests below the limit are unaffected": what is not refused happens as under any other
    configuration that does not refuse it either (in particular a configuration without limits) *)
